@@ -72,6 +72,8 @@ REC_KEYS = {
     'disk_io': TDict(STR, TTuple([INT, INT])), 'disk_usage': TDict(STR, REAL),
     'namespec': STR, 'proc_work': REAL, 'proc_memory': REAL, 'nb_cores': INT, 'target_period': REAL,
     'period': TTuple([REAL, REAL]),
+    # handshake notifications
+    'authorization': INT,
 }
 
 EXTERNAL_TYPES = {}
